@@ -477,6 +477,14 @@ func genC09(r *rand.Rand, run int, tier string) *vm.Plan {
 		h.tokKey[t] = h.issuers[0]
 	}
 	key := h.tokKey[t]
+	if r.Intn(2) == 0 {
+		// the holder has already handed out attenuated children of this very object before it seals it
+		// (whatever the object remembers from signing for them must not unfreeze the sealed token)
+		for n := 1 + r.Intn(2); n > 0; n-- {
+			c := h.attenuate(t, h.g.Block(2, 1, 1))
+			h.tokKey[c] = key
+		}
+	}
 	s := h.seal(t)
 	h.tokKey[s] = key
 	sb := h.send(s)
